@@ -213,6 +213,34 @@ def _reduce_sqrt(cv, num, nonneg):
     return num
 
 
+def _reduce_trig(cv, num):
+    """rewrite sin(x)^2 -> 1 - cos(x)^2 (Pythagorean identity of the uninterpreted sin/cos pair)"""
+    from .core import uf
+
+    for _ in range(8):
+        sn = {i: t for i, t in enumerate(cv.atom_terms) if z3.is_app(t) and t.decl().name() == "sin" and t.num_args() == 1}
+        if not sn:
+            return num
+        changed = False
+        out = Poly()
+        for m, c in num.t.items():
+            hit = next(((v, e) for v, e in m if v in sn and e >= 2), None)
+            if hit is None:
+                out = out + Poly({m: c})
+                continue
+            v, e = hit
+            cos_t = uf("cos", 1)(sn[v].arg(0))
+            cn, _ = cv.conv(cos_t)
+            rest = tuple((vv, ee) if vv != v else (vv, ee - 2) for vv, ee in m)
+            rest = tuple((vv, ee) for vv, ee in rest if ee > 0)
+            out = out + Poly({rest: c}) * (Poly.const(1) - cn * cn)
+            changed = True
+        num = out
+        if not changed:
+            break
+    return num
+
+
 def identity(lhs, rhs):
     """-> (holds: bool, side conditions: list of z3 terms d with obligation d != 0, or (x, '>=0'))"""
     cv = Converter()
@@ -223,6 +251,8 @@ def identity(lhs, rhs):
         num = n1 * d2 - n2 * d1
         if not num.is_zero():
             num = _reduce_sqrt(cv, num, nonneg)
+        if not num.is_zero():
+            num = _reduce_trig(cv, num)
     except TooBig:
         return False, []
     cv.nonneg = nonneg
